@@ -206,9 +206,14 @@ func (engC09) Gen(r *Rng, s *Script, idx int, tier string) {
 		s.Config["itemlevel"] = level
 		ctr := 0
 		interleave := r.Chance(1, 3) // a wrapper kept by the caller is rendered while the table is still growing
+		twoTables := r.Chance(1, 8)  // some rows are also added to a second table
 		for i := 0; i < n; i++ {
 			if interleave && r.Chance(1, 4) {
 				s.Steps = append(s.Steps, Step{Op: "render", A: r.Intn(NFormats), B: r.Intn(NDecoChoices), C: ViaReused, D: r.Intn(4)})
+				continue
+			}
+			if twoTables && r.Chance(1, 5) {
+				s.Steps = append(s.Steps, Step{Op: "attachOther", A: r.Intn(3)})
 				continue
 			}
 			s.Steps = append(s.Steps, genBuildStep(r, m, level, &ctr))
